@@ -26,6 +26,15 @@
    the forward-error bound of a backward-stable solver, LS_C eps (cond|x| + cond^2|r|/|A|), which a
    solution through the normal equations (cond^2 eps |x|) does not meet; rank-deficient tall systems must come back with rank < columns when a column is
    missing; otherwise rank < columns or astronomically large output.
+4b. Full-column-rank tall systems whose columns / rows are scaled by exact powers of two 2^-60..2^60 (mixed
+   within one matrix): the exact rank is n (oracle on the base system), so the C routines must report
+   rank n and the unscaled solution must meet the forward-error bound of the base system (column scaling
+   by powers of two commutes with every operation of the sweep, also in binary64); the same through the
+   public API (over-determined one-port calibration with measurements in units of 2^e).
+5. White-box tie of the Householder model coq/Lin/QrModel.v (lib/c19_qr.py): rational-norm inputs built
+   from rational reflections (every sqrt met is exact over Q), exact triangular inputs (bitwise), inputs
+   with a zero column at every position (NaN stop, rank = position): d[], the working array, the
+   transformed B, X and the rank of _vnacommon_qrd / _vnacommon_qrsolve against the extracted model.
 """
 import math
 import os
@@ -33,6 +42,7 @@ from fractions import Fraction
 
 import vplib
 import lu_scale
+import c19_qr
 
 EPS = 2.0 ** -52
 BERR_C = 1e3            # generous constant of the backward-error bound  c * n * 2^-52
@@ -329,7 +339,8 @@ def run(ctx):
         "Coq 8.16.1 kernel (coqc); vm_compute for the witnesses / non-vacuity examples; no native_compute",
         "axioms: none (Print Assumptions: Closed under the global context for every theorem of Properties_C19.v)",
         "hand-written models coq/Lin/LuModel.v and coq/Lin/LuPartial.v (what the C code returns at an exactly zero pivot) (+ LuQI2.v instantiation), tied on every run by exact-rational correspondence with the C routines; row-scale variant and call-site tests read from the C text by translate/lu_scale.py",
-        "least squares: specification level only (normal equations, coq/Lin/LsSpec.v; sound and complete oracle coq/Lin/LsLu.v); NO model of the Householder code, which is compared with the oracle numerically (support)",
+        "least squares: specification (normal equations, coq/Lin/LsSpec.v; sound and complete oracle coq/Lin/LsLu.v) + hand-written model of the Householder code coq/Lin/QrModel.v (sweep, rank rule, solve), tied white-box by exact-rational correspondence; forming Q and _vnacommon_qrsolve2 are not modelled (compared with the oracle numerically)",
+        "QR theorems: laws of sqrt() and cexp(I*carg()) (nrm s * nrm s = s, cj (nrm s) = nrm s, phase x * cj (phase x) = 1, cj (phase x) * x = nrm (x cj x)) are a premise per run (QrProofs.run_laws), checked by computation at Q[i] on every generated input (QrQI.qq_run_lawsb); field hypotheses QrTheorems.qr_field_laws discharged at Q[i]",
         "OCaml extraction (ExtrOcamlBasic) + glue.ml.inc, zarith; gcc, ASan/UBSan for the harness",
     ]
     ctx.assumptions = [
@@ -396,9 +407,10 @@ def run(ctx):
     # ------------------------------------------------------------------ 2. proofs
     vfiles = ["Lin/LuGenA.v", "Lin/LuGenB.v", "Lin/LuGenC.v", "Lin/LuGenD.v", "Lin/LuGen.v", "Lin/LuPivot.v",
               "Lin/LuDet3.v", "Lin/LuProofs.v", "Lin/LuNonsing.v", "Lin/LuNonsingQI.v", "Lin/LsProofs.v",
-              "Lin/LsLuProofs.v", "Properties_C19.v"]
+              "Lin/LsLuProofs.v", "Lin/QrAlg.v", "Lin/QrProofs.v", "Lin/QrTheorems.v", "Lin/QrQIProofs.v",
+              "Properties_C19.v"]
     vfiles = [v for v in vfiles if os.path.exists(os.path.join(vplib.COQDIR, v))]
-    ok, res = ctx.coq_obligations(["Lin/LsSpec.v", "Lin/LuPartial.v", "Lin/LsLu.v", "Lin/LuQI2.v"] + vfiles)
+    ok, res = ctx.coq_obligations(["Lin/LsSpec.v", "Lin/LuPartial.v", "Lin/LsLu.v", "Lin/LuQI2.v", "Lin/QrModel.v", "Lin/QrQI.v"] + vfiles)
     if not ok:
         log = getattr(ctx, "_last_coq_log", "")
         broken.append(("Coq development of C19", log[-500:]))
@@ -736,6 +748,14 @@ def run(ctx):
 
     # ------------------------------------------------------------------ 4. least squares
     ls_check(ctx, drv, exe, run_both, violation, quick)
+
+    # ------------------------------------------------------------------ 4b. badly scaled full-rank least squares
+    ls_scaled_check(ctx, exe, run_both, violation, quick)
+
+    # ------------------------------------------------------------------ 5. the Householder model, white box
+    # QrModel (extracted at Q[i], ocaml/drv_qr.ml) against _vnacommon_qrd / _vnacommon_qrsolve
+    # (harness/qr_harness.c): d[], the working array (v_k vectors and R), the transformed B, X, the rank
+    c19_qr.qr_model_check(ctx, violation, quick)
 
     return finish(ctx, broken, found_violation)
 
@@ -1449,3 +1469,235 @@ def ls_check(ctx, drv, exe, run_both, violation, quick):
         r.update({"routine": name, "observed": what})
         violation({"kind": "rank-unreported", "function": name, "class": cases[idx]["kind"]},
                   "%s: rank-deficient %dx%d system (%s): %s" % (name, r["m"], r["n"], cases[idx]["kind"], what), r)
+
+
+# ---------------------------------------------------------------------------- badly scaled least squares
+def scale_cols(m, exps):
+    return [[(a * Fraction(2) ** e, b * Fraction(2) ** e) for (a, b), e in zip(row, exps)] for row in m]
+
+
+def wide_exps(rng, k, lo=-60, hi=60):
+    """k exponents in lo..hi, mixed within one vector: with k >= 2 at least one from the lowest and one
+    from the highest quarter of the range (a spread of at least (hi - lo) / 2 binary orders)."""
+    e = [rng.randint(lo, hi) for _ in range(k)]
+    if k >= 2:
+        i, j = rng.sample(range(k), 2)
+        q = (hi - lo) // 4
+        e[i] = rng.randint(lo, lo + q)
+        e[j] = rng.randint(hi - q, hi)
+    return e
+
+
+def ls_bound(A, B, xm, m, n, o):
+    """forward-error scale of a backward-stable least-squares solver on (A, B) with exact solution xm:
+    eps (cond |x*| + cond^2 |r*| / |A|); returns (base, cond, |x*|)."""
+    kappa = kappa_A(A, m, n)
+    anorm = math.sqrt(sum(cabsf(v) ** 2 for row in A for v in row))
+    xnorm = math.sqrt(sum(cabsf(v) ** 2 for v in xm))
+    rs = 0.0
+    for i in range(m):
+        for k in range(o):
+            s = (Fraction(0), Fraction(0))
+            for j in range(n):
+                s = cadd(s, cmul(A[i][j], xm[j * o + k]))
+            rs += cabsf(csub(s, B[i][k])) ** 2
+    return EPS * (kappa * xnorm + kappa * kappa * math.sqrt(rs) / anorm), kappa, xnorm
+
+
+def ls_scaled_check(ctx, exe, run_both, violation, quick):
+    """Full-column-rank tall systems whose columns (and, separately, rows) are scaled by exact powers
+    of two 2^-60 .. 2^60, mixed within one matrix.  The exact rank (LsLu.ls_lu answers iff the column
+    rank is full: LsLuProofs.ls_lu_answers_iff_full_rank) does not change under a nonzero scaling, so the
+    C routines must report rank n; scaling column j by 2^e multiplies x_j by 2^-e exactly (also in
+    binary64: every operation of the Householder sweep commutes with a power-of-two column scaling), so
+    the unscaled C solution is held to the forward-error bound of the BASE system.  For row scaling
+    (a differently weighted least-squares problem) the exact model runs on the scaled system when it is
+    small (n <= 3, m <= 8) and the solution is compared when the bound of the scaled system is meaningful
+    (<= 1e-6 |x|); for larger systems the exact rank is that of the base system (a nonzero row scaling does
+    not change the kernel) and only the rank is asserted."""
+    rng = ctx.rng
+    shapes = []
+    for n in ((2, 3, 4, 5) if quick else (2, 2, 3, 3, 4, 4, 5, 5, 6, 7, 8)):
+        for _ in range(2 if quick else 4):
+            shapes.append((n + rng.randint(1, 2 * n + 2), n))
+    shapes += [(2, 1), (5, 1), (4, 2), (6, 2), (8, 2), (5, 3), (7, 3)]     # small: row-scaled solution compared too
+    cases = []
+    for (m, n) in shapes:
+        for rel in ("col", "row", "row1"):
+            A0 = rand_matrix(rng, m, n, 12)
+            o = rng.randint(1, 2)
+            consistent = rng.random() < 0.5 or rel != "col"
+            if consistent:
+                X0 = rand_matrix(rng, n, o, 6)
+                B0 = [[(Fraction(0), Fraction(0))] * o for _ in range(m)]
+                for i in range(m):
+                    B0[i] = [(Fraction(0), Fraction(0))] * o
+                    for k in range(o):
+                        s = (Fraction(0), Fraction(0))
+                        for j in range(n):
+                            s = cadd(s, cmul(A0[i][j], X0[j][k]))
+                        B0[i][k] = s
+            else:
+                B0 = rand_matrix(rng, m, o, 12)
+            if rel == "col":
+                if n < 2:
+                    continue
+                ex = wide_exps(rng, n)
+                A, B = scale_cols(A0, ex), B0
+                mA, mB = A0, B0                    # the exact model runs on the base system
+            else:
+                if rel == "row1":
+                    # one equation weighted 2^(2h) times more heavily than the others
+                    h = rng.randint(24, 60)
+                    ex = [-h] * m
+                    ex[rng.randrange(m)] = h
+                else:
+                    ex = wide_exps(rng, m)
+                A, B = scale_rows(A0, ex), scale_rows(B0, ex)
+                # small systems: the exact model runs on the scaled system (rationals with 2^+-120 in the
+                # normal equations: slow on Coq's binary integers) and the solution is compared when the
+                # bound is meaningful; larger ones: a nonzero row scaling does not change the kernel, so
+                # the exact rank is the rank of the base system and only the rank is asserted
+                if n <= 3 and m <= 8:
+                    mA, mB = A, B
+                else:
+                    mA, mB = A0, B0
+            assert exact_in_double(A) and exact_in_double(B)
+            cases.append(dict(rel=rel, m=m, n=n, o=o, A=A, B=B, mA=mA, mB=mB, exps=ex, consistent=consistent,
+                              rank_only=(rel != "col" and mA is A0)))
+    mlines, clines = [], []
+    for c in cases:
+        mlines.append("ls %d %d %d %s %s" % (c["m"], c["n"], c["o"], mat_str(c["mA"], fs), mat_str(c["mB"], fs)))
+        for op in ("qrsolve", "qr2"):
+            clines.append("%s %d %d %d %s %s" % (op, c["m"], c["n"], c["o"], mat_str(c["A"], hx), mat_str(c["B"], hx)))
+    ctx.log("badly scaled least squares: %d cases" % len(cases))
+    ml, cl = run_both(mlines, clines, timeout=900)
+    if ml is None:
+        return
+    ctx.log("badly scaled least squares: model and C done")
+    stats = dict(col_scaled=0, row_scaled=0, row_scaled_solution_compared=0, row_scaled_rank_only=0, skipped_rank_deficient=0)
+    bad_rank, bad_x = [], []
+    worst = 0.0
+    for idx, c in enumerate(cases):
+        m, n, o = c["m"], c["n"], c["o"]
+        mres = parse_m_line(ml[idx])
+        cr = [parse_c_line(cl[2 * idx]), parse_c_line(cl[2 * idx + 1])]
+        ctx.count(None, 2)
+        if mres.get("none"):
+            stats["skipped_rank_deficient"] += 1
+            continue
+        xm = mres["x"]
+        base, kappa, xnorm = ls_bound(c["mA"], c["mB"], xm, m, n, o)
+        tol = LS_C * base + 1e-300
+        stats["col_scaled" if c["rel"] == "col" else "row_scaled"] += 1
+        compare = c["rel"] == "col" or (not c["rank_only"] and tol <= 1e-6 * xnorm)
+        if c["rel"] != "col":
+            stats["row_scaled_solution_compared" if compare else "row_scaled_rank_only"] += 1
+        for name, r in zip(("qrsolve", "qr+qrsolve2"), cr):
+            if r["rank"] != n:
+                bad_rank.append((idx, name, r["rank"]))
+                continue
+            if not compare:
+                ctx.count(("ls-scaled-rank", name, idx), 0)
+                continue
+            xs = r["x"]
+            if not all(finite(v) for v in xs):
+                bad_x.append((idx, name, float("inf"), tol, kappa))
+                continue
+            xf = to_fr(xs)
+            if c["rel"] == "col":
+                # undo the column scaling exactly: x_j(base) = 2^e_j x_j(scaled)
+                xf = [(a * Fraction(2) ** c["exps"][t // o], b * Fraction(2) ** c["exps"][t // o]) for t, (a, b) in enumerate(xf)]
+            err = math.sqrt(sum(cabsf((a - u, b - w)) ** 2 for (a, b), (u, w) in zip(xf, xm)))
+            if base > 0:
+                worst = max(worst, err / base)
+            if not err <= tol:
+                bad_x.append((idx, name, err, tol, kappa))
+            else:
+                ctx.count(("ls-scaled", name, idx), 0)
+        if idx % 7 == 0:
+            ctx.sample({"ls_scaled": "%dx%d %s-scaled, exponents %s" % (m, n, c["rel"], c["exps"]), "rank_qrsolve": cr[0]["rank"],
+                        "cond(model system)": kappa, "solution_compared": compare})
+    ctx.traces_validated += 2 * len(cases)
+    ctx.extra["ls_scaled_stats"] = stats
+    ctx.extra["ls_scaled_worst_err_over_eps(cond|x|+cond^2|r|/|A|)"] = worst
+
+    def replay(idx):
+        c = cases[idx]
+        return {"m": c["m"], "n": c["n"], "o": c["o"], "scaling": {"col": "columns", "row": "rows", "row1": "one heavy row"}[c["rel"]],
+                "exponents_of_two": c["exps"],
+                "A": [[[fs(a), fs(b)] for (a, b) in row] for row in c["A"]],
+                "B": [[[fs(a), fs(b)] for (a, b) in row] for row in c["B"]],
+                "harness": "harness/lu_harness.c ops qrsolve / qr2", "exact_rank": c["n"]}
+    ctx.obligation("tie:full-rank tall systems with columns / rows scaled by 2^-60..2^60 are reported with rank n and solved "
+                   "(%d column-scaled, %d row-scaled of which %d with the solution compared)"
+                   % (stats["col_scaled"], stats["row_scaled"], stats["row_scaled_solution_compared"]),
+                   not (bad_rank or bad_x),
+                   "; ".join("case %d %s" % (b[0], b[1]) for b in (bad_rank + bad_x)[:3]))
+    for idx, name, rank in bad_rank[:1]:
+        r = replay(idx)
+        r.update({"routine": name, "rank_reported": rank})
+        violation({"kind": "least-squares-rank", "function": name, "class": "scaled-" + cases[idx]["rel"][:3]},
+                  "%s: %dx%d system of exact column rank %d whose %s are scaled by powers of two %s is reported with rank %d "
+                  "(callers turn rank < unknowns into EDOM 'singular linear system')"
+                  % (name, r["m"], r["n"], r["n"], r["scaling"], cases[idx]["exps"], rank), r)
+    for idx, name, err, tol, kappa in bad_x[:1]:
+        r = replay(idx)
+        r.update({"routine": name, "error": err, "tolerance": tol, "kappa": kappa})
+        violation({"kind": "least-squares", "function": name, "class": "scaled-" + cases[idx]["rel"][:3]},
+                  "%s: %dx%d system with %s scaled by powers of two: solution differs from the exact least-squares solution by "
+                  "%.3g (bound %.3g)" % (name, r["m"], r["n"], r["scaling"], err, tol), r)
+
+    # the same through the public API: an over-determined one-port calibration (4 reflects, 3 error terms)
+    # whose measurements are expressed in units of 2^e; the corrected value must not depend on the unit
+    qexe = ctx.build_harness("qr_harness", san=True)
+    ccases = []
+    for _ in range(4 if quick else 24):
+        def small():
+            return (Fraction(rng.randint(-12, 12), 64), Fraction(rng.randint(-12, 12), 64))
+        e00, e11 = small(), small()
+        e10e01 = (Fraction(rng.randint(48, 64), 64), Fraction(rng.randint(-12, 12), 64))
+        stds = [(Fraction(-1), Fraction(0)), (Fraction(1), Fraction(0)), (Fraction(0), Fraction(0)),
+                (Fraction(rng.randint(-16, 16), 32), Fraction(rng.choice([-1, 1]) * rng.randint(8, 24), 32))]
+        rng.shuffle(stds)
+        sdut = (Fraction(rng.randint(-20, 20), 32), Fraction(rng.randint(-20, 20), 32))
+        for e in (0, rng.choice([-1, 1]) * rng.randint(45, 60), rng.randint(-60, 60)):
+            ccases.append(dict(e=e, e00=e00, e10e01=e10e01, e11=e11, stds=stds, sdut=sdut))
+    lines = ["cal1 %d %s" % (c["e"], " ".join("%s %s" % (hx(a), hx(b)) for (a, b) in [c["e00"], c["e10e01"], c["e11"]] + c["stds"] + [c["sdut"]]))
+             for c in ccases]
+    rc, out, err = vplib.sh([qexe], input="\n".join(lines) + "\n", timeout=300, env=ctx.run_env())
+    if rc != 0:
+        sig = vplib.asan_signature(err) or {"kind": "fault", "error": "exit %d" % rc, "function": None}
+        violation(sig, "qr_harness failed on the scaled one-port calibrations: " + err[-300:], {"stderr": err[-3000:], "input": lines[:6]})
+        return
+    outs = out.strip().split("\n")
+    bad_cal = []
+    ncmp = 0
+    control_ok = False
+    for c, ln in zip(ccases, outs):
+        f = dict(t.split("=") for t in ln.split()[1:5])
+        p = ln.split()
+        x = parse_c_vals(p[p.index("x=") + 1:p.index("x=") + 3])[0]
+        good = f["solve"] == "0" and f["apply"] == "0" and finite(x) and \
+            cabsf((Fraction(x[0]) - c["sdut"][0], Fraction(x[1]) - c["sdut"][1])) <= 1e-9
+        ctx.count(("cal1", c["e"], len(bad_cal)) if good else None)
+        if c["e"] == 0:
+            control_ok = good       # ordinary units: if this fails the standards are badly conditioned, nothing asserted
+            continue
+        if not control_ok:
+            continue
+        ncmp += 1
+        if not good:
+            bad_cal.append((c, f, x))
+    ctx.traces_validated += len(ccases)
+    ctx.obligation("tie:over-determined one-port calibration (vnacal_new_solve, 4 reflects) gives the same corrected value with "
+                   "measurements in units of 2^e, e = -60..60 (%d scaled runs)" % ncmp, not bad_cal,
+                   "; ".join("e=%d solve=%s" % (b[0]["e"], b[1]["solve"]) for b in bad_cal[:3]))
+    for c, f, x in bad_cal[:1]:
+        violation({"kind": "least-squares-rank", "function": "vnacal_new_solve", "class": "scaled-units"},
+                  "vnacal_new_solve / vnacal_apply_m: one-port E12 calibration from four reflect standards with measurements in units of 2^%d: "
+                  "solve rc=%s apply rc=%s category=%s corrected=%s, with ordinary units the same calibration corrects the device to within 1e-9"
+                  % (c["e"], f["solve"], f["apply"], f["category"], x),
+                  {"unit_exponent": c["e"], "e00": [fs(v) for v in c["e00"]], "e10e01": [fs(v) for v in c["e10e01"]],
+                   "e11": [fs(v) for v in c["e11"]], "standards": [[fs(a), fs(b)] for (a, b) in c["stds"]],
+                   "dut": [fs(v) for v in c["sdut"]], "harness": "harness/qr_harness.c op cal1", "observed": ln})
